@@ -238,6 +238,14 @@ def oracle(item, d, claims, classes, ctx):
     def tracked(keys, queue):
         return b_and(*[b_or(*[simp(str_eq(k, q)) for q in queue]) if queue else False for k in keys]) if keys else True
     add('C18', 'at quiescence every stored key is tracked by the eviction queue (it can still be evicted)', tracked(snap['keys'], snap['queue']))
+    if any(op[0] in ('inv_with', 'inv_all_with') for p_ in item['progs'] for op in p_):
+        # C13: "after any invalidation, limits, eviction order and memory totals behave as if the removed entries had never been stored" -
+        # also when the invalidation overlapped a store: what stays stored stays tracked and within the limit
+        add('C13', 'after a conditional invalidation that overlapped a store every stored key is still tracked by the eviction queue', tracked(snap['keys'], snap['queue']))
+        if 'keys2' in snap:
+            add('C13', 'after a conditional invalidation that overlapped a store, the next sequential store leaves every stored key tracked by the queue', tracked(snap['keys2'], snap['queue2']))
+            if cfg and cfg['limit'] is not None:
+                add('C13', 'after a conditional invalidation that overlapped a store, the next sequential store leaves at most `limit` entries', len(snap['keys2']) <= simp(cfg['limit']))
     if cfg and cfg['limit'] is not None:
         add('C18', 'at quiescence the cache holds at most `limit` entries', len(snap['keys']) <= simp(cfg['limit']))
         if 'keys2' in snap:
